@@ -566,8 +566,25 @@ def op_tag(p, op, descr) -> str:
                     pre_red = reduces(pre, set())
                     post_red = reduces(post, set())
                     pre_w = {nm for nm, _ in get_writes_of_stmts(pre)}
+
+                    def assigned(ss, acc, wd):
+                        for st in ss:
+                            if isinstance(st, LoopIR.WindowStmt):
+                                wd[st.name] = wd.get(st.rhs.name, st.rhs.name)
+                            if isinstance(st, LoopIR.Assign):
+                                acc.add(wd.get(st.name, st.name))
+                            for a in ("body", "orelse"):
+                                if hasattr(st, a):
+                                    assigned(getattr(st, a), acc, wd)
+                        return acc
+
+                    wd = {}
+                    pre_assigned = assigned(pre, set(), wd)
+                    post_red = {wd.get(nm, nm) for nm in post_red}
                     pre_mentions = {nm for nm, _ in get_reads_of_stmts(pre)}
-                    if not pre_red and node.iter not in pre_mentions and (pre_w & post_red):
+                    # (reductions of the first part that a later assignment of the same part shadows do not count for
+                    # the implementation's idempotence test, so they are not excluded here)
+                    if node.iter not in pre_mentions and (pre_assigned & post_red):
                         return ":idempotent-prefix-written-then-reduced-into"
             except Exception:
                 pass
